@@ -5,7 +5,10 @@ From AF Require Import Lib.Bytes Lib.Path Lib.Ops.
 (* the array after writing b at offset off: the gap (if any) is zero-filled, bytes before
    off and from off+|b| on are untouched *)
 Definition pwrite (data : bytes) (off : nat) (b : bytes) : bytes :=
-  firstn off (data ++ zeros (off - length data)) ++ b ++ skipn (off + length b) data.
+  match b with
+  | [] => data                     (* a zero-length write changes nothing (write(2) with count 0) *)
+  | _ => firstn off (data ++ zeros (off - length data)) ++ b ++ skipn (off + length b) data
+  end.
 (* up to n bytes from offset off *)
 Definition pread (data : bytes) (off n : nat) : bytes := firstn n (skipn off data).
 (* cut or zero-extend to n bytes *)
@@ -64,7 +67,7 @@ Definition bf_step (s : bstate) (o : op) : bstate * pres :=
       if bro h then (s, PErr C_READONLY) else
       if n <? 0 then (s, PErr C_INVALID) else
       (mkBS (ptrunc data (Z.to_nat n)) (bhs s), POk))
-  | HClose i => with_h i (fun h => (seth i (mkBH (bpos h) true (bro h)) data, POk))
+  | HClose i => with_h i (fun h => if bclosed h then (s, PErr C_CLOSED) else (seth i (mkBH (bpos h) true (bro h)) data, POk))
   | HStat i => with_h i (fun h => (s, PSize (length data)))
   | HSync i => with_h i (fun h => (s, POk))
   | _ => (s, PNone)
